@@ -19,13 +19,9 @@ class Parser:
     def parse(self, txt):
         self.txt = txt
         self.pos = 0
-        if self.at_end():
-            expr = regex.EPSILON
-        else:
-            expr = self._parse_top()
-            while not self.at_end():
-                expr2 = self._parse_top()
-                expr = expr + expr2
+        expr = self._parse_top()
+        if not self.at_end():
+            raise ValueError(f"Unexpected {self.current()}")
         return expr
 
     def current(self):
@@ -78,7 +74,11 @@ class Parser:
         return expr
 
     def _parse_and(self):
-        return self._parse_element()
+        """Parse a (possibly empty) sequence of elements."""
+        expr = regex.EPSILON
+        while not (self.at_end() or self.peek("|") or self.peek(")")):
+            expr = expr + self._parse_element()
+        return expr
 
     def _parse_element(self):
         """Parse single element of regex"""
